@@ -19,22 +19,31 @@ using namespace SimTK;
 
 namespace {
 
-// Custom probe force: counts calcForce calls; position-only or velocity dependent.
+// Custom probe force: counts calcForce calls; position-only (optionally also reading time), velocity dependent,
+// or with a state parameter of its own (a discrete variable invalidating `paramStage`: Position or Instance for a
+// position-only probe, Dynamics otherwise -- the rule the library's own elements have to follow)
 struct Probe : public Force::Custom::Implementation {
-    Probe(const MobilizedBody& mobod, bool posOnly, Real c) : mobod(mobod), posOnly(posOnly), c(c) {}
+    Probe(const GeneralForceSubsystem& forces, const MobilizedBody& mobod, bool posOnly, Real c, bool readsTime = false, int paramStage = 0)
+        : forces(forces), mobod(mobod), posOnly(posOnly), c(c), readsTime(readsTime), paramStage(paramStage) {}
+    void realizeTopology(State& s) const override {
+        if (paramStage) paramIx = forces.allocateDiscreteVariable(s, Stage(paramStage), new Value<Real>(c));
+    }
+    Real coef(const State& s) const { return paramStage ? Value<Real>::downcast(forces.getDiscreteVariable(s, paramIx)).get() : c; }
+    void setParam(State& s, Real v) const { Value<Real>::updDowncast(forces.updDiscreteVariable(s, paramIx)).upd() = v; }
     void calcForce(const State& s, Vector_<SpatialVec>&, Vector_<Vec3>&, Vector& mobilityForces) const override {
         ++calls;
-        const Real x = posOnly ? std::sin(mobod.getOneQ(s, 0)) : mobod.getOneU(s, 0);
-        mobod.applyOneMobilityForce(s, 0, -c * x, mobilityForces);
+        const Real x = posOnly ? std::sin(mobod.getOneQ(s, 0) + (readsTime ? s.getTime() : 0.0)) : mobod.getOneU(s, 0);
+        mobod.applyOneMobilityForce(s, 0, -coef(s) * x, mobilityForces);
     }
     Real calcPotentialEnergy(const State&) const override { return 0; }
     bool dependsOnlyOnPositions() const override { return posOnly; }
-    MobilizedBody mobod; bool posOnly; Real c; mutable long calls = 0;
+    const GeneralForceSubsystem& forces; MobilizedBody mobod; bool posOnly; Real c; bool readsTime; int paramStage;
+    mutable DiscreteVariableIndex paramIx; mutable long calls = 0;
 };
 
 enum Kind { K_TPSpring, K_TPDamper, K_TPConst, K_ConstForce, K_ConstTorque, K_GlobalDamper, K_UniformGravity,
             K_Bushing, K_MobSpring, K_MobDamper, K_MobConst, K_MobStop, K_MobDiscrete, K_Discrete, K_Gravity,
-            K_ProbePos, K_ProbeVel, K_Thermostat, K_CableSpring, K_ExpSpring };
+            K_ProbePos, K_ProbeVel, K_Thermostat, K_CableSpring, K_ExpSpring, K_ProbeTime, K_ProbeParam };
 
 const char* className(Kind k) {
     switch (k) {
@@ -61,6 +70,7 @@ const char* className(Kind k) {
 }
 const char* shortName(Kind k) {
     static std::string s; s = className(k);
+    if (k == K_ProbeParam) { s = "CustomWithStateParameter"; return s.c_str(); }
     if (s.compare(0, 7, "Force::") == 0) s = s.substr(7);
     if (s.size() > 6 && s.compare(s.size() - 6, 6, "::Impl") == 0) s = s.substr(0, s.size() - 6);
     else if (s.size() > 4 && s.compare(s.size() - 4, 4, "Impl") == 0) s = s.substr(0, s.size() - 4);
@@ -79,8 +89,30 @@ struct Sys {
     MultibodySystem sys; SimbodyMatterSubsystem matter; GeneralForceSubsystem forces;
     std::vector<MobilizedBody> bodies; std::vector<FRec> fr;
     std::unique_ptr<CableTrackerSubsystem> cables;
+    std::vector<Constraint> cons;      // "rich" systems: constraints, locks, Euler/quaternion option, event witness
+    bool rich = false;
     Sys() : matter(sys), forces(sys) {}
 };
+
+// event witness function (evaluated when the System realizes Velocity)
+struct Witness : public TriggeredEventHandler {
+    explicit Witness(const MobilizedBody& b) : TriggeredEventHandler(Stage::Velocity), b(b) {}
+    Real getValue(const State& s) const override { return b.getOneQ(s, 0) + 0.5 * b.getOneU(s, 0) - 0.1 * s.getTime(); }
+    void handleEvent(State&, Real, bool&) const override {}
+    MobilizedBody b;
+};
+
+// the five lazy cache entries of the matter subsystem, in the order of the model's ME.all
+const char* const ME_NAMES[5] = { "pk", "cbi", "abi", "vk", "abv" };
+bool meValid(const Sys& S, const State& s, int e) {
+    switch (e) {
+    case 0: return S.matter.isPositionKinematicsRealized(s);
+    case 1: return S.matter.isCompositeBodyInertiasRealized(s);
+    case 2: return S.matter.isArticulatedBodyInertiasRealized(s);
+    case 3: return S.matter.isVelocityKinematicsRealized(s);
+    default: return S.matter.isArticulatedBodyVelocityRealized(s);
+    }
+}
 
 Vec3 rvec(vh::Rng& r, double lo, double hi) { return Vec3(r.signedMag(lo, hi), r.signedMag(lo, hi), r.signedMag(lo, hi)); }
 
@@ -124,8 +156,12 @@ void addForce(Sys& S, vh::Rng& r, Kind k) {
         const bool zero = r.below(4) == 0;
         f.grav = Force::Gravity(S.forces, S.matter, UnitVec3(rvec(r, .3, 1)), zero ? 0.0 : r.range(1, 10), r.range(-1, 1));
         f.ix = f.grav.getForceIndex(); break; }
-    case K_ProbePos: case K_ProbeVel: {
-        f.probe = new Probe(A, k == K_ProbePos, r.range(.5, 3));
+    case K_ProbePos: case K_ProbeVel: case K_ProbeTime: {
+        f.probe = new Probe(S.forces, A, k != K_ProbeVel, r.range(.5, 3), k == K_ProbeTime);
+        Force::Custom x(S.forces, f.probe); f.ix = x.getForceIndex(); break; }
+    case K_ProbeParam: {
+        const bool po = r.coin();
+        f.probe = new Probe(S.forces, A, po, r.range(.5, 3), false, po ? (r.coin() ? Stage::Position : Stage::Instance) : Stage::Dynamics);
         Force::Custom x(S.forces, f.probe); f.ix = x.getForceIndex(); break; }
     }
     S.fr.push_back(f);
@@ -146,17 +182,49 @@ std::string obs(const Sys& S, const State& s) {
             os << " g" << i << '=' << (f.grav.isForceCacheValid(s) ? 1 : 0) << '/' << f.grav.getNumEvaluations();
         if (f.probe) os << " c" << i << '=' << f.probe->calls;
     }
+    os << " m=";
+    for (int e = 0; e < 5; ++e) os << (meValid(S, s, e) ? 1 : 0);
     return os.str();
 }
 
-struct Results { Vector udot, mob, zdot; Vector_<SpatialVec> body; Real pe, ke; };
+struct Results { Vector udot, mob, zdot; Vector_<SpatialVec> body; Real pe, ke;
+                 std::vector<double> mult, cerr, wit, kin, lazy; };
 
-Results collect(const Sys& S, State& s) {
+void push(std::vector<double>& v, const Vector& x) { for (int i = 0; i < x.size(); ++i) v.push_back(x[i]); }
+template <class M> void pushMat(std::vector<double>& v, const M& m) {
+    for (int i = 0; i < m.nrow(); ++i) for (int j = 0; j < m.ncol(); ++j) v.push_back(m(i, j)); }
+
+Results collect(const Sys& S, State& s, bool cbi = true) {
     S.sys.realize(s, Stage::Acceleration);
+    if (cbi) S.matter.realizeCompositeBodyInertias(s);       // never computed unless asked for
     Results r; r.udot = s.getUDot(); r.zdot = s.getZDot(); r.mob = S.sys.getMobilityForces(s, Stage::Dynamics);
     r.body = S.sys.getRigidBodyForces(s, Stage::Dynamics);
     r.pe = S.sys.calcPotentialEnergy(s); r.ke = S.sys.calcKineticEnergy(s);
+    push(r.mult, s.getMultipliers());
+    push(r.cerr, s.getQErr()); push(r.cerr, s.getUErr()); push(r.cerr, s.getUDotErr());
+    push(r.wit, s.getEventTriggers());
+    for (MobilizedBodyIndex b(0); b < S.matter.getNumBodies(); ++b) {
+        const MobilizedBody& mb = S.matter.getMobilizedBody(b);
+        pushMat(r.kin, mb.getBodyTransform(s).toMat34());
+        const SpatialVec V = mb.getBodyVelocity(s), A = mb.getBodyAcceleration(s);
+        for (int i = 0; i < 2; ++i) for (int j = 0; j < 3; ++j) { r.kin.push_back(V[i][j]); r.kin.push_back(A[i][j]); }
+        if (b > 0 && cbi) {
+            const SpatialMat C = S.matter.getCompositeBodyInertia(s, b).toSpatialMat();
+            const SpatialMat P = S.matter.getArticulatedBodyInertia(s, b).toSpatialMat();
+            for (int i = 0; i < 2; ++i) for (int j = 0; j < 2; ++j) { pushMat(r.lazy, C(i, j)); pushMat(r.lazy, P(i, j)); }
+        }
+    }
     return r;
+}
+
+double relDiffVec(const std::vector<double>& a, const std::vector<double>& b) {
+    if (a.size() != b.size()) return INFINITY;
+    double scale = 1, d = 0;
+    for (size_t i = 0; i < a.size(); ++i) {
+        if (std::isnan(a[i]) || std::isnan(b[i])) { if (!(std::isnan(a[i]) && std::isnan(b[i]))) return INFINITY; continue; }
+        scale = std::max(scale, std::max(std::fabs(a[i]), std::fabs(b[i]))); d = std::max(d, std::fabs(a[i] - b[i]));
+    }
+    return d / scale;
 }
 
 // zOnly = false: udot, forces, PE, KE;  zOnly = true: the derivatives of the auxiliary states
@@ -178,6 +246,17 @@ double relDiff(const Results& a, const Results& b, bool zOnly = false, bool all 
 // a freshly created State given the same values, through the same public API
 State freshLike(const Sys& S, const State& s) {
     State f = S.sys.getDefaultState();
+    if (S.rich) {
+        if (S.matter.getUseEulerAngles(f) != S.matter.getUseEulerAngles(s)) {
+            S.matter.setUseEulerAngles(f, S.matter.getUseEulerAngles(s));
+            S.sys.realizeModel(f);
+        }
+        for (const MobilizedBody& b : S.bodies) {       // lockAt(Position) also writes q and u: before setQ / setU
+            const Motion::Level lv = b.getLockLevel(s);
+            if (lv == Motion::NoLevel) b.unlock(f); else b.lockAt(f, b.getLockValueAsVector(s), lv);
+        }
+        for (const Constraint& c : S.cons) { if (c.isDisabled(s)) c.disable(f); else c.enable(f); }
+    }
     f.setTime(s.getTime()); f.setQ(s.getQ()); f.setU(s.getU()); f.setZ(s.getZ());
     for (const FRec& r : S.fr) {
         S.forces.setForceIsDisabled(f, r.ix, S.forces.isForceDisabled(s, r.ix));
@@ -203,6 +282,7 @@ State freshLike(const Sys& S, const State& s) {
         case K_CableSpring: r.cable.setStiffness(f, r.cable.getStiffness(s)); r.cable.setSlackLength(f, r.cable.getSlackLength(s));
                             r.cable.setDissipationCoef(f, r.cable.getDissipationCoef(s)); break;
         case K_ExpSpring: r.expo->setMuStatic(f, r.expo->getMuStatic(s)); r.expo->setMuKinetic(f, r.expo->getMuKinetic(s)); break;
+        case K_ProbeParam: r.probe->setParam(f, r.probe->coef(s)); break;
         default: break;
         }
     }
@@ -213,7 +293,9 @@ void emitModel(const Sys& S, const State& s) {
     vh::Line l = vh::I("model");
     l.i((long long)S.fr.size());
     for (const FRec& f : S.fr) {
-        l.s(className(f.kind)).i(f.kind == K_ProbePos ? 1 : 0).i(S.forces.isForceDisabled(s, f.ix) ? 0 : 1)
+        std::string cls = className(f.kind);
+        if (f.probe && f.probe->paramStage) cls += "@" + std::to_string(f.probe->paramStage);   // Custom force with a state parameter
+        l.s(cls).i(f.probe && f.probe->posOnly ? 1 : 0).i(S.forces.isForceDisabled(s, f.ix) ? 0 : 1)
          .i(f.kind == K_Gravity && f.grav.getMagnitude(s) == 0 ? 1 : 0);
     }
     l.emit();
@@ -225,7 +307,9 @@ Results doCheck(const Sys& S, State& s, const std::string& key) {
     Results a = collect(S, s);
     State f = freshLike(S, s);
     Results b = collect(S, f);
-    const double d = relDiff(a, b), dz = relDiff(a, b, true);
+    const double d = relDiff(a, b);
+    double dz = relDiff(a, b, true);
+    if (std::isinf(dz)) dz = 2.0;      // NaN on one side only: reported as the largest possible relative difference
     std::printf("O obs %s stale=%d\n", obs(S, s).c_str(), d > 1e-12 ? 1 : 0);
     vh::P("sameAsFreshState", key, d, 1e-12);
     if (a.zdot.size()) {
@@ -236,6 +320,19 @@ Results doCheck(const Sys& S, State& s, const std::string& key) {
                 if ((f.kind == K_Bushing || f.kind == K_CableSpring || f.kind == K_Thermostat) && S.forces.isForceDisabled(s, f.ix))
                     zkey = "zdot_of_disabled_element.history";
         vh::P("sameZDotAsFreshState", zkey, dz, 1e-12);
+    }
+    if (S.rich) {
+        int nlock = 0, ndis = 0;
+        for (const MobilizedBody& mb : S.bodies) nlock += mb.isLocked(s) ? 1 : 0;
+        for (const Constraint& c : S.cons) ndis += c.isDisabled(s) ? 1 : 0;
+        vh::D(std::string("rich_check=") + (a.mult.empty() ? "nomult" : "mult") + (nlock ? ",locked" : ",free")
+              + (ndis ? ",someConstraintDisabled" : ",allConstraintsEnabled") + (S.matter.getUseEulerAngles(s) ? ",euler" : ",quaternion"));
+        const std::string base = key.substr(0, key.size() - 8);       // strip ".history"
+        vh::P("sameMultipliersAsFreshState", base + ".multipliers.history", relDiffVec(a.mult, b.mult), 1e-12);
+        vh::P("sameConstraintErrorsAsFreshState", base + ".constraint_errors.history", relDiffVec(a.cerr, b.cerr), 1e-12);
+        vh::P("sameEventWitnessesAsFreshState", base + ".event_witnesses.history", relDiffVec(a.wit, b.wit), 1e-12);
+        vh::P("sameKinematicsAsFreshState", base + ".kinematics.history", relDiffVec(a.kin, b.kin), 1e-12);
+        vh::P("sameMatterLazyCachesAsFreshState", base + ".matter_lazy_caches.history", relDiffVec(a.lazy, b.lazy), 1e-12);
     }
     return a;
 }
@@ -293,7 +390,7 @@ void directedCase(vh::Rng& r, Kind k, const char* setter, Change change,
     for (int i = 0; i < s.getNU(); ++i) s.updU()[i] = r.signedMag(.3, 1);
     std::printf("I setU %ld\nO obs %s\n", ++tok, obs(S, s).c_str());
     if (before) before(S, S.fr[0], s);
-    const Results res0 = collect(S, s);
+    const Results res0 = collect(S, s, false);
     std::printf("I realize 8\nO obs %s\n", obs(S, s).c_str());
     const std::string mop = change(S, S.fr[0], s, r);
     std::printf("I %s\nO obs %s\n", mop.c_str(), obs(S, s).c_str());
@@ -303,7 +400,7 @@ void directedCase(vh::Rng& r, Kind k, const char* setter, Change change,
 }
 
 std::string P0(int j, long tok) { return "setParam 0 " + std::to_string(j) + " " + std::to_string(tok); }
-std::string G0(long tok, bool zero) { return "gravSet 0 0 " + std::to_string(tok) + (zero ? " 1" : " 0"); }
+std::string G0(long tok, bool zero, const char* setter) { return "gravSet 0 0 " + std::to_string(tok) + (zero ? " 1 " : " 0 ") + setter; }
 
 void directedCases(vh::Rng& r) {
     // mobility elements
@@ -344,19 +441,19 @@ void directedCases(vh::Rng& r) {
     // Force::Gravity (defaults: magnitude 9.8 along -Y unless stated)
     auto gravAxis = [](Sys& S, FRec& f) { f.grav.setDefaultDownDirection(UnitVec3(-YAxis)); f.grav.setDefaultMagnitude(9.8); (void)S; };
     auto gravZero = [](Sys&, FRec& f) { f.grav.setDefaultDownDirection(UnitVec3(-YAxis)); f.grav.setDefaultMagnitude(0); };
-    directedCase(r, K_Gravity, "setMagnitude", [](Sys&, FRec& f, State& s, vh::Rng&) { f.grav.setMagnitude(s, 3.7); return G0(201, false); }, gravAxis);
-    directedCase(r, K_Gravity, "setMagnitude_toZero", [](Sys&, FRec& f, State& s, vh::Rng&) { f.grav.setMagnitude(s, 0); return G0(201, true); }, gravAxis);
-    directedCase(r, K_Gravity, "setMagnitude_fromZero", [](Sys&, FRec& f, State& s, vh::Rng&) { f.grav.setMagnitude(s, 6.5); return G0(201, false); }, gravZero);
-    directedCase(r, K_Gravity, "setDownDirection", [](Sys&, FRec& f, State& s, vh::Rng&) { f.grav.setDownDirection(s, UnitVec3(XAxis)); return G0(201, false); }, gravAxis);
-    directedCase(r, K_Gravity, "setZeroHeight", [](Sys&, FRec& f, State& s, vh::Rng&) { f.grav.setZeroHeight(s, f.grav.getZeroHeight(s) + 1.5); return G0(201, false); }, gravAxis);
-    directedCase(r, K_Gravity, "setGravityVector_directionOnly", [](Sys&, FRec& f, State& s, vh::Rng&) { f.grav.setGravityVector(s, Vec3(9.8, 0, 0)); return G0(201, false); }, gravAxis);
-    directedCase(r, K_Gravity, "setGravityVector_oppositeDirection", [](Sys&, FRec& f, State& s, vh::Rng&) { f.grav.setGravityVector(s, Vec3(0, 9.8, 0)); return G0(201, false); }, gravAxis);
-    directedCase(r, K_Gravity, "setGravityVector_magnitudeOnly", [](Sys&, FRec& f, State& s, vh::Rng&) { f.grav.setGravityVector(s, Vec3(0, -4.9, 0)); return G0(201, false); }, gravAxis);
-    directedCase(r, K_Gravity, "setGravityVector_both", [](Sys&, FRec& f, State& s, vh::Rng&) { f.grav.setGravityVector(s, Vec3(1, -2, 3)); return G0(201, false); }, gravAxis);
-    directedCase(r, K_Gravity, "setGravityVector_toZero", [](Sys&, FRec& f, State& s, vh::Rng&) { f.grav.setGravityVector(s, Vec3(0)); return G0(201, true); }, gravAxis);
-    directedCase(r, K_Gravity, "setGravityVector_fromZero", [](Sys&, FRec& f, State& s, vh::Rng&) { f.grav.setGravityVector(s, Vec3(0, 0, -5)); return G0(201, false); }, gravZero);
-    directedCase(r, K_Gravity, "setBodyIsExcluded_true", [](Sys&, FRec& f, State& s, vh::Rng&) { f.grav.setBodyIsExcluded(s, MobilizedBodyIndex(1), true); return G0(201, false); }, gravAxis);
-    directedCase(r, K_Gravity, "setBodyIsExcluded_false", [](Sys&, FRec& f, State& s, vh::Rng&) { f.grav.setBodyIsExcluded(s, MobilizedBodyIndex(2), false); return G0(201, false); },
+    directedCase(r, K_Gravity, "setMagnitude", [](Sys&, FRec& f, State& s, vh::Rng&) { f.grav.setMagnitude(s, 3.7); return G0(201, false, "setMagnitude"); }, gravAxis);
+    directedCase(r, K_Gravity, "setMagnitude_toZero", [](Sys&, FRec& f, State& s, vh::Rng&) { f.grav.setMagnitude(s, 0); return G0(201, true, "setMagnitude"); }, gravAxis);
+    directedCase(r, K_Gravity, "setMagnitude_fromZero", [](Sys&, FRec& f, State& s, vh::Rng&) { f.grav.setMagnitude(s, 6.5); return G0(201, false, "setMagnitude"); }, gravZero);
+    directedCase(r, K_Gravity, "setDownDirection", [](Sys&, FRec& f, State& s, vh::Rng&) { f.grav.setDownDirection(s, UnitVec3(XAxis)); return G0(201, false, "setDownDirection"); }, gravAxis);
+    directedCase(r, K_Gravity, "setZeroHeight", [](Sys&, FRec& f, State& s, vh::Rng&) { f.grav.setZeroHeight(s, f.grav.getZeroHeight(s) + 1.5); return G0(201, false, "setZeroHeight"); }, gravAxis);
+    directedCase(r, K_Gravity, "setGravityVector_directionOnly", [](Sys&, FRec& f, State& s, vh::Rng&) { f.grav.setGravityVector(s, Vec3(9.8, 0, 0)); return G0(201, false, "setGravityVector"); }, gravAxis);
+    directedCase(r, K_Gravity, "setGravityVector_oppositeDirection", [](Sys&, FRec& f, State& s, vh::Rng&) { f.grav.setGravityVector(s, Vec3(0, 9.8, 0)); return G0(201, false, "setGravityVector"); }, gravAxis);
+    directedCase(r, K_Gravity, "setGravityVector_magnitudeOnly", [](Sys&, FRec& f, State& s, vh::Rng&) { f.grav.setGravityVector(s, Vec3(0, -4.9, 0)); return G0(201, false, "setGravityVector"); }, gravAxis);
+    directedCase(r, K_Gravity, "setGravityVector_both", [](Sys&, FRec& f, State& s, vh::Rng&) { f.grav.setGravityVector(s, Vec3(1, -2, 3)); return G0(201, false, "setGravityVector"); }, gravAxis);
+    directedCase(r, K_Gravity, "setGravityVector_toZero", [](Sys&, FRec& f, State& s, vh::Rng&) { f.grav.setGravityVector(s, Vec3(0)); return G0(201, true, "setGravityVector"); }, gravAxis);
+    directedCase(r, K_Gravity, "setGravityVector_fromZero", [](Sys&, FRec& f, State& s, vh::Rng&) { f.grav.setGravityVector(s, Vec3(0, 0, -5)); return G0(201, false, "setGravityVector"); }, gravZero);
+    directedCase(r, K_Gravity, "setBodyIsExcluded_true", [](Sys&, FRec& f, State& s, vh::Rng&) { f.grav.setBodyIsExcluded(s, MobilizedBodyIndex(1), true); return G0(201, false, "setBodyIsExcluded"); }, gravAxis);
+    directedCase(r, K_Gravity, "setBodyIsExcluded_false", [](Sys&, FRec& f, State& s, vh::Rng&) { f.grav.setBodyIsExcluded(s, MobilizedBodyIndex(2), false); return G0(201, false, "setBodyIsExcluded"); },
                  [](Sys&, FRec& f) { f.grav.setDefaultDownDirection(UnitVec3(-YAxis)); f.grav.setDefaultMagnitude(9.8); f.grav.setDefaultBodyIsExcluded(MobilizedBodyIndex(2), true); });
     // enable / disable of every element type (also the ones whose parameters are construction-time constants)
     static const Kind all[] = { K_TPSpring, K_TPDamper, K_TPConst, K_ConstForce, K_ConstTorque, K_GlobalDamper, K_UniformGravity,
@@ -373,18 +470,112 @@ void directedCases(vh::Rng& r) {
     }
 }
 
+void out(const Sys& S, const State& s, const char* fmt, long a = 0, long b = 0, long c = 0, long d = 0) {
+    std::printf("I "); std::printf(fmt, a, b, c, d); std::printf("\nO obs %s\n", obs(S, s).c_str());
+}
+
+// explicit request for / invalidation of one of the matter subsystem's lazy entries (legal ones only: the
+// realizeXxx methods throw unless their prerequisites are realized)
+void matterOp(Sys& S, State& s, vh::Rng& r) {
+    if (s.getSystemStage() < Stage::Instance) return;
+    const int e = r.below(5);
+    const SimbodyMatterSubsystem& m = S.matter;
+    if (r.below(3)) {
+        const bool pk = meValid(S, s, 0);
+        switch (e) {
+        case 0: m.realizePositionKinematics(s); break;
+        case 1: if (!pk) return; m.realizeCompositeBodyInertias(s); break;
+        case 2: if (!pk) return; m.realizeArticulatedBodyInertias(s); break;
+        case 3: if (!pk) return; m.realizeVelocityKinematics(s); break;
+        default: if (!(meValid(S, s, 3) && meValid(S, s, 2))) return; m.realizeArticulatedBodyVelocity(s); break;
+        }
+        std::printf("I mRealize %s\nO obs %s\n", ME_NAMES[e], obs(S, s).c_str());
+        vh::D(std::string("matter_op=realize_") + ME_NAMES[e]);
+    } else {
+        switch (e) {
+        case 0: m.invalidatePositionKinematics(s); break;
+        case 1: m.invalidateCompositeBodyInertias(s); break;
+        case 2: m.invalidateArticulatedBodyInertias(s); break;
+        case 3: m.invalidateVelocityKinematics(s); break;
+        default: m.invalidateArticulatedBodyVelocity(s); break;
+        }
+        std::printf("I mInvalidate %s\nO obs %s\n", ME_NAMES[e], obs(S, s).c_str());
+        vh::D(std::string("matter_op=invalidate_") + ME_NAMES[e]);
+    }
+}
+
+// one operation of the vocabulary shared by all random histories
+void genericOp(Sys& S, State& s, vh::Rng& r, long& tok, const std::string& key) {
+    const int c = r.below(100);
+    const int fi = r.below((int)S.fr.size());
+    FRec& f = S.fr[fi];
+    if (c < 12) { s.updQ()[r.below(s.getNQ())] = r.range(-1, 1); out(S, s, "setQ %ld", ++tok); }
+    else if (c < 20) { s.updU()[r.below(s.getNU())] = r.range(-1, 1); out(S, s, "setU %ld", ++tok); }
+    else if (c < 24) { if (s.getNZ()) { s.updZ()[r.below(s.getNZ())] = r.range(0, 1); out(S, s, "setZ %ld", ++tok); } }
+    else if (c < 28) { s.setTime(r.range(0, 5)); out(S, s, "setT %ld", ++tok); }
+    else if (c < 50) {           // a parameter of an element through its own setter
+        switch (f.kind) {
+        case K_MobSpring: if (r.coin()) f.mls.setStiffness(s, r.range(1, 9)); else f.mls.setQZero(s, r.range(-1, 1)); out(S, s, "setParam %ld 0 %ld", fi, ++tok); break;
+        case K_MobDamper: f.mld.setDamping(s, r.range(.2, 2)); out(S, s, "setParam %ld 0 %ld", fi, ++tok); break;
+        case K_MobConst: f.mcf.setForce(s, r.signedMag(1, 5)); out(S, s, "setParam %ld 0 %ld", fi, ++tok); break;
+        case K_MobStop: if (r.coin()) f.stop.setMaterialProperties(s, r.range(5, 50), r.range(.1, 1)); else f.stop.setBounds(s, -r.range(.1, .6), r.range(.1, .6)); out(S, s, "setParam %ld 0 %ld", fi, ++tok); break;
+        case K_MobDiscrete: f.mdf.setMobilityForce(s, r.signedMag(1, 5)); out(S, s, "setParam %ld 0 %ld", fi, ++tok); break;
+        case K_Discrete:
+            if (r.coin()) { f.df.setOneMobilityForce(s, S.bodies[f.mob], MobilizerUIndex(0), r.signedMag(1, 5)); out(S, s, "setParam %ld 0 %ld", fi, ++tok); }
+            else { f.df.setOneBodyForce(s, S.bodies[f.mob], SpatialVec(rvec(r, 1, 3), rvec(r, 1, 3))); out(S, s, "setParam %ld 1 %ld", fi, ++tok); }
+            break;
+        case K_Bushing:
+            if (r.coin()) f.bush.setStiffness(s, r.range(.5, 2) * f.bush.getStiffness(s)); else f.bush.setDamping(s, r.range(.5, 2) * f.bush.getDamping(s));
+            out(S, s, "setParam %ld 0 %ld", fi, ++tok); break;
+        case K_Thermostat:
+            if (r.coin()) { f.thermo.setBathTemperature(s, r.range(.5, 3)); out(S, s, "setParam %ld 1 %ld", fi, ++tok); }
+            else { f.thermo.setRelaxationTime(s, r.range(.3, 2)); out(S, s, "setParam %ld 2 %ld", fi, ++tok); }
+            break;
+        case K_ProbeParam: f.probe->setParam(s, r.range(.5, 3)); out(S, s, "setParam %ld 0 %ld", fi, ++tok); break;
+        case K_Gravity: {
+            const int w = r.below(7);
+            const Real g0 = f.grav.getMagnitude(s);
+            bool changed = true; const char* setter = "setMagnitude";
+            if (w == 0) { const Real g = r.below(3) == 0 ? 0.0 : r.range(1, 10); changed = g != g0; f.grav.setMagnitude(s, g); }
+            else if (w == 1) { const UnitVec3 d(rvec(r, .3, 1)); changed = d != f.grav.getDownDirection(s); f.grav.setDownDirection(s, d); setter = "setDownDirection"; }
+            else if (w == 2) { const Real z = r.range(-1, 1); changed = z != f.grav.getZeroHeight(s); f.grav.setZeroHeight(s, z); setter = "setZeroHeight"; }
+            else if (w == 3) { const Vec3 gv = r.below(3) == 0 ? Vec3(0) : rvec(r, 1, 9);
+                const Real ng = gv.norm(); const UnitVec3 nd = ng > 0 ? UnitVec3(gv / ng, true) : f.grav.getDownDirection(s);
+                changed = (g0 != ng) || (f.grav.getDownDirection(s) != nd); f.grav.setGravityVector(s, gv); setter = "setGravityVector"; }
+            else if (w == 4) { const MobilizedBodyIndex b(1 + r.below(S.matter.getNumBodies() - 1)); const bool e = r.coin();
+                changed = e != f.grav.getBodyIsExcluded(s, b); f.grav.setBodyIsExcluded(s, b, e); setter = "setBodyIsExcluded"; }
+            else if (w == 5) {      // direction-only change with exactly the same magnitude (axis aligned)
+                const int ax = r.below(3); Vec3 gv(0); gv[ax] = r.coin() ? g0 : -g0;
+                const UnitVec3 nd = g0 > 0 ? UnitVec3(gv / g0, true) : f.grav.getDownDirection(s);
+                changed = f.grav.getDownDirection(s) != nd; f.grav.setGravityVector(s, gv); setter = "setGravityVector"; }
+            else { changed = false; f.grav.setMagnitude(s, g0); }       // same value: must be a no-op
+            if (changed) { std::printf("I gravSet %d 0 %ld %d %s\nO obs %s\n", fi, ++tok, f.grav.getMagnitude(s) == 0 ? 1 : 0, setter, obs(S, s).c_str()); }
+            break; }
+        default: break;
+        }
+    }
+    else if (c < 60) { const bool en = r.coin(); S.forces.setForceIsDisabled(s, f.ix, !en); out(S, s, "setEnabled %ld %ld", fi, en ? 1 : 0); }
+    else if (c < 78) { const int g = 3 + r.below(7); S.sys.realize(s, Stage(g)); out(S, s, "realize %ld", g); }
+    else if (c < 83) matterOp(S, s, r);
+    else if (c < 88) { if (s.getSystemStage() >= Stage::Position && f.kind == K_Gravity) { (void)f.grav.getBodyForces(s); out(S, s, "gravQuery %ld", fi); } }
+    else if (c < 92) { if (s.getSystemStage() >= Stage::Position) { (void)S.sys.calcPotentialEnergy(s); out(S, s, "peQuery"); } }
+    else doCheck(S, s, key);
+}
+
 void randomCase(vh::Rng& r) {
     Sys S; buildBodies(S, r, 1 + r.below(3));
-    static const Kind subjects[] = { K_MobSpring, K_MobDamper, K_MobConst, K_MobStop, K_MobDiscrete, K_Discrete, K_Gravity, K_Bushing };
+    static const Kind subjects[] = { K_MobSpring, K_MobDamper, K_MobConst, K_MobStop, K_MobDiscrete, K_Discrete, K_Gravity, K_Bushing,
+                                     K_Thermostat, K_ProbeParam };
     static const Kind background[] = { K_TPSpring, K_TPDamper, K_TPConst, K_ConstForce, K_ConstTorque, K_GlobalDamper, K_UniformGravity, K_Bushing };
-    const Kind subj = subjects[r.below(8)];
+    const Kind subj = subjects[r.below(10)];
     std::vector<Kind> kinds;
-    const int nsub = 1 + r.below(2);
+    const int nsub = subj == K_Thermostat ? 1 : 1 + r.below(2);
     for (int i = 0; i < nsub; ++i) kinds.push_back(subj);
     const int nbg = r.below(4);
     for (int i = 0; i < nbg; ++i) kinds.push_back(background[r.below(8)]);
     if (r.coin()) kinds.push_back(K_ProbePos);
     if (r.coin()) kinds.push_back(K_ProbeVel);
+    if (r.below(3) == 0) kinds.push_back(K_ProbeTime);
     if (subj != K_Gravity && r.below(3) == 0) kinds.push_back(K_Gravity);
     for (size_t i = kinds.size(); i > 1; --i) std::swap(kinds[i - 1], kinds[r.below((int)i)]);   // shuffle
     for (Kind k : kinds) addForce(S, r, k);
@@ -396,55 +587,105 @@ void randomCase(vh::Rng& r) {
     vh::D(std::string("subject=") + shortName(subj));
     long tok = 100;
     const int nops = 8 + r.below(18);
-    auto out = [&](const char* fmt, long a = 0, long b = 0, long c = 0, long d = 0) {
-        std::printf("I "); std::printf(fmt, a, b, c, d); std::printf("\nO obs %s\n", obs(S, s).c_str()); };
-    for (int op = 0; op < nops; ++op) {
-        const int c = r.below(100);
-        const int fi = r.below((int)S.fr.size());
-        FRec& f = S.fr[fi];
-        if (c < 12) { s.updQ()[r.below(s.getNQ())] = r.range(-1, 1); out("setQ %ld", ++tok); }
-        else if (c < 20) { s.updU()[r.below(s.getNU())] = r.range(-1, 1); out("setU %ld", ++tok); }
-        else if (c < 24) { if (s.getNZ()) { s.updZ()[r.below(s.getNZ())] = r.range(0, 1); out("setZ %ld", ++tok); } }
-        else if (c < 28) { s.setTime(r.range(0, 5)); out("setT %ld", ++tok); }
-        else if (c < 52) {           // a parameter of an element through its own setter
-            switch (f.kind) {
-            case K_MobSpring: if (r.coin()) f.mls.setStiffness(s, r.range(1, 9)); else f.mls.setQZero(s, r.range(-1, 1)); out("setParam %ld 0 %ld", fi, ++tok); break;
-            case K_MobDamper: f.mld.setDamping(s, r.range(.2, 2)); out("setParam %ld 0 %ld", fi, ++tok); break;
-            case K_MobConst: f.mcf.setForce(s, r.signedMag(1, 5)); out("setParam %ld 0 %ld", fi, ++tok); break;
-            case K_MobStop: if (r.coin()) f.stop.setMaterialProperties(s, r.range(5, 50), r.range(.1, 1)); else f.stop.setBounds(s, -r.range(.1, .6), r.range(.1, .6)); out("setParam %ld 0 %ld", fi, ++tok); break;
-            case K_MobDiscrete: f.mdf.setMobilityForce(s, r.signedMag(1, 5)); out("setParam %ld 0 %ld", fi, ++tok); break;
-            case K_Discrete:
-                if (r.coin()) { f.df.setOneMobilityForce(s, S.bodies[f.mob], MobilizerUIndex(0), r.signedMag(1, 5)); out("setParam %ld 0 %ld", fi, ++tok); }
-                else { f.df.setOneBodyForce(s, S.bodies[f.mob], SpatialVec(rvec(r, 1, 3), rvec(r, 1, 3))); out("setParam %ld 1 %ld", fi, ++tok); }
-                break;
-            case K_Gravity: {
-                const int w = r.below(7);
-                const Real g0 = f.grav.getMagnitude(s);
-                bool changed = true;
-                if (w == 0) { const Real g = r.below(3) == 0 ? 0.0 : r.range(1, 10); changed = g != g0; f.grav.setMagnitude(s, g); }
-                else if (w == 1) { const UnitVec3 d(rvec(r, .3, 1)); changed = d != f.grav.getDownDirection(s); f.grav.setDownDirection(s, d); }
-                else if (w == 2) { const Real z = r.range(-1, 1); changed = z != f.grav.getZeroHeight(s); f.grav.setZeroHeight(s, z); }
-                else if (w == 3) { const Vec3 gv = r.below(3) == 0 ? Vec3(0) : rvec(r, 1, 9);
-                    const Real ng = gv.norm(); const UnitVec3 nd = ng > 0 ? UnitVec3(gv / ng, true) : f.grav.getDownDirection(s);
-                    changed = (g0 != ng) || (f.grav.getDownDirection(s) != nd); f.grav.setGravityVector(s, gv); }
-                else if (w == 4) { const MobilizedBodyIndex b(1 + r.below(S.matter.getNumBodies() - 1)); const bool e = r.coin();
-                    changed = e != f.grav.getBodyIsExcluded(s, b); f.grav.setBodyIsExcluded(s, b, e); }
-                else if (w == 5) {      // direction-only change with exactly the same magnitude (axis aligned)
-                    const int ax = r.below(3); Vec3 gv(0); gv[ax] = r.coin() ? g0 : -g0;
-                    const UnitVec3 nd = g0 > 0 ? UnitVec3(gv / g0, true) : f.grav.getDownDirection(s);
-                    changed = f.grav.getDownDirection(s) != nd; f.grav.setGravityVector(s, gv); }
-                else { changed = false; f.grav.setMagnitude(s, g0); }       // same value: must be a no-op
-                if (changed) out("gravSet %ld 0 %ld %ld", fi, ++tok, f.grav.getMagnitude(s) == 0 ? 1 : 0);
-                break; }
-            default: break;
-            }
+    for (int op = 0; op < nops; ++op) genericOp(S, s, r, tok, key);
+    doCheck(S, s, key);
+}
+
+// ---------------------------------------------------------------------------------------------------------
+// "rich" systems: Pin / Slider / Ball / Free mobilizers (Euler-angle / quaternion modelling option), constraints
+// that can be enabled and disabled, mobilizer locks, an event witness function; the comparison with the fresh
+// State additionally covers multipliers, constraint errors, witness values, body kinematics and the matter
+// subsystem's lazily evaluated composite- and articulated-body inertias.
+void buildBodiesRich(Sys& S, vh::Rng& r, int nb) {
+    MobilizedBody parent = S.matter.Ground();
+    for (int i = 0; i < nb; ++i) {
+        const Vec3 com = rvec(r, .1, .6);
+        Body::Rigid body(MassProperties(r.range(.5, 3), com, UnitInertia(r.range(.5, 2), r.range(.5, 2), r.range(.5, 2)).shiftFromCentroid(-com)));
+        const Transform Xp(Rotation(r.range(-1, 1), UnitVec3(rvec(r, .3, 1))), rvec(r, .2, 1));
+        const Transform Xb(rvec(r, .1, .5));
+        switch (r.below(5)) {
+        case 0: { MobilizedBody::Slider m(parent, Xp, body, Xb); S.bodies.push_back(m); break; }
+        case 1: { MobilizedBody::Ball m(parent, Xp, body, Xb); S.bodies.push_back(m); break; }
+        case 2: { MobilizedBody::Free m(parent, Xp, body, Xb); S.bodies.push_back(m); break; }
+        default: { MobilizedBody::Pin m(parent, Xp, body, Xb); S.bodies.push_back(m); break; }
         }
-        else if (c < 62) { const bool en = r.coin(); S.forces.setForceIsDisabled(s, f.ix, !en); out("setEnabled %ld %ld", fi, en ? 1 : 0); }
-        else if (c < 82) { const int g = 3 + r.below(7); S.sys.realize(s, Stage(g)); out("realize %ld", g); }
-        else if (c < 88) { if (s.getSystemStage() >= Stage::Position && f.kind == K_Gravity) { (void)f.grav.getBodyForces(s); out("gravQuery %ld", fi); } }
-        else if (c < 92) { if (s.getSystemStage() >= Stage::Position) { (void)S.sys.calcPotentialEnergy(s); out("peQuery"); } }
-        else doCheck(S, s, key);
+        if (r.coin()) parent = S.bodies.back();
     }
+}
+
+void addConstraint(Sys& S, vh::Rng& r) {
+    const int nb = (int)S.bodies.size();
+    MobilizedBody A = S.bodies[r.below(nb)];
+    MobilizedBody G = S.matter.Ground();
+    switch (r.below(5)) {
+    case 0: S.cons.push_back(Constraint::Rod(A, rvec(r, .1, .4), G, rvec(r, 1, 2), r.range(.8, 2))); break;
+    case 1: S.cons.push_back(Constraint::Ball(G, rvec(r, .5, 1.5), A, rvec(r, .1, .4))); break;
+    case 2: S.cons.push_back(Constraint::PointInPlane(G, UnitVec3(rvec(r, .3, 1)), r.range(-.5, .5), A, rvec(r, .1, .4))); break;
+    case 3: S.cons.push_back(Constraint::ConstantSpeed(A, MobilizerUIndex(0), r.range(-1, 1))); break;
+    default: S.cons.push_back(Constraint::ConstantAcceleration(A, MobilizerUIndex(0), r.range(-1, 1))); break;
+    }
+    if (r.below(3) == 0) S.cons.back().setDisabledByDefault(true);
+}
+
+void richOp(Sys& S, State& s, vh::Rng& r, long& tok) {
+    const int c = r.below(100);
+    if (c < 36) {                  // mobilizer locks (Instance-stage variables; locking positions also writes q and u)
+        const MobilizedBody& b = S.bodies[r.below((int)S.bodies.size())];
+        const int w = r.below(4);
+        const Motion::Level lv = Motion::Level(1 + r.below(3)) == Motion::Level(1) ? Motion::Acceleration
+                               : (r.coin() ? Motion::Velocity : Motion::Position);
+        if (w == 0) b.lock(s, lv);
+        else if (w == 1) { Vector v(lv == Motion::Position ? b.getNumQ(s) : b.getNumU(s)); for (int i = 0; i < v.size(); ++i) v[i] = r.range(-1, 1); b.lockAt(s, v, lv); }
+        else b.unlock(s);
+        out(S, s, "setInst %ld", ++tok);
+        vh::D(std::string("rich_op=") + (w == 0 ? "lock" : w == 1 ? "lockAt" : "unlock"));
+        if (w < 2 && lv == Motion::Position) { out(S, s, "setQ %ld", ++tok); out(S, s, "setU %ld", ++tok); }
+    } else if (c < 66) {           // enable / disable a constraint
+        if (S.cons.empty()) return;
+        const Constraint& k = S.cons[r.below((int)S.cons.size())];
+        vh::D(k.isDisabled(s) ? "rich_op=constraintEnable" : "rich_op=constraintDisable");
+        if (k.isDisabled(s)) k.enable(s); else k.disable(s);
+        out(S, s, "setInst %ld", ++tok);
+    } else if (c < 78) {           // Euler angles <-> quaternions: a Model-stage variable
+        S.matter.setUseEulerAngles(s, !S.matter.getUseEulerAngles(s));
+        out(S, s, "setOpt %ld", ++tok);
+        vh::D("rich_op=setUseEulerAngles");
+        S.sys.realizeModel(s);
+        out(S, s, "realize 2");
+        // realizeModel re-created the continuous variables and the Instance-stage variables with default values
+        s.setTime(r.range(0, 5)); out(S, s, "setT %ld", ++tok);
+        for (int i = 0; i < s.getNQ(); ++i) s.updQ()[i] = r.range(-1, 1);
+        out(S, s, "setQ %ld", ++tok);
+        for (int i = 0; i < s.getNU(); ++i) s.updU()[i] = r.range(-1, 1);
+        out(S, s, "setU %ld", ++tok);
+        if (s.getNZ()) { for (int i = 0; i < s.getNZ(); ++i) s.updZ()[i] = r.range(0, 1); out(S, s, "setZ %ld", ++tok); }
+        out(S, s, "setInst %ld", ++tok);
+    } else matterOp(S, s, r);
+}
+
+void richCase(vh::Rng& r) {
+    Sys S; S.rich = true;
+    buildBodiesRich(S, r, 2 + r.below(2));
+    static const Kind pool[] = { K_MobSpring, K_MobDamper, K_TPSpring, K_TPDamper, K_Bushing, K_Gravity, K_Gravity, K_GlobalDamper,
+                                 K_Discrete, K_ProbePos, K_ProbeVel, K_ProbeTime, K_ConstForce };
+    const int nf = 2 + r.below(3);
+    for (int i = 0; i < nf; ++i) addForce(S, r, pool[r.below(13)]);
+    const int nc = 1 + r.below(2);
+    for (int i = 0; i < nc; ++i) addConstraint(S, r);
+    if (r.coin()) S.bodies[r.below((int)S.bodies.size())].lockByDefault(r.coin() ? Motion::Position : Motion::Velocity);
+    S.sys.addEventHandler(new Witness(S.bodies[0]));
+    S.sys.realizeTopology();
+    State s = S.sys.getDefaultState();
+    emitModel(S, s);
+    const std::string key = "constrained.history";
+    vh::D("subject=constrained");
+    long tok = 100;
+    for (int i = 0; i < s.getNQ(); ++i) s.updQ()[i] = r.range(-1, 1);
+    out(S, s, "setQ %ld", ++tok);
+    for (int i = 0; i < s.getNU(); ++i) s.updU()[i] = r.range(-1, 1);
+    out(S, s, "setU %ld", ++tok);
+    const int nops = 10 + r.below(18);
+    for (int op = 0; op < nops; ++op) { if (r.below(5) < 2) richOp(S, s, r, tok); else genericOp(S, s, r, tok, key); }
     doCheck(S, s, key);
 }
 
@@ -460,7 +701,7 @@ int main(int argc, char** argv) {
     try {
         caseF4(r);
         directedCases(r);
-        for (long i = 0; i < args.n; ++i) randomCase(r);
+        for (long i = 0; i < args.n; ++i) { if (i % 3 == 2) richCase(r); else randomCase(r); }
     } catch (const std::exception& e) {
         std::fprintf(stderr, "C16 harness: exception %s\n", e.what());
         return 3;
